@@ -11,7 +11,9 @@
                enc_text label ++ [kind] ++ opt detail ++ opt documentation ++ opt insert_text, SORTED
                (the Rust code iterates HashMaps); [1] panic; [2] fuel.
                flag = Completion.full_flag: 0 no claim of C16 at this position, 1 the answer meets the
-               property (CompletionProofs.completion_full_statement at this document and position), 2 not. *)
+               property (CompletionProofs.completion_full_statement at this document and position), 2 not;
+               plus 4 when Completion.compl_wf_b does NOT hold for the analysed document (the hypothesis of
+               CompletionProofs.propose_no_panic) - so 0, 1, 2 also say that it holds. *)
 From Spl Require Export Judge.Dump Model.Completion.
 
 Definition enc_semtok (s : semtok) : list N := [st_dl s; st_ds s; st_len s; st_ty s; st_mod s].
@@ -77,15 +79,17 @@ Fixpoint insert_sorted (x : list N) (l : list (list N)) : list (list N) :=
 
 Definition sort_nlists (l : list (list N)) : list (list N) := fold_right insert_sorted [] l.
 
+Definition wf_mark (d : doc) (flag : N) : N := if compl_wf_b d then flag else flag + 4.
+
 Definition run_completion (args : list N) : list N :=
   match args with
   | line :: col :: t =>
       match new_doc t with
       | Done d =>
           match propose d line col with
-          | ROk None => [0; full_flag_of d line col (ROk None); 0]
+          | ROk None => [0; wf_mark d (full_flag_of d line col (ROk None)); 0]
           | ROk (Some items) =>
-              0 :: full_flag_of d line col (ROk (Some items)) :: 1 :: nlen items
+              0 :: wf_mark d (full_flag_of d line col (ROk (Some items))) :: 1 :: nlen items
                 :: concat (sort_nlists (map enc_item items))
           | RFail _ => [1]
           end
